@@ -91,7 +91,10 @@ def _active_known() -> set[str]:
 
 # ------------------------------------------------------------------------------------------ argument recipes
 def _num_edges() -> st.SearchStrategy:
-    return V.choice(V.edge_numbers(), V.ints(), V.floats(), V.decimals(), V.fractions_())
+    # the float and int edges (NaN, +-inf, -0.0, 2**53 +- 1, 10**400) get their own branches: they are the values the
+    # property statement names explicitly
+    return V.choice(V.edge_numbers(), V.edge_numbers_of("float"), V.edge_numbers_of("int"), V.ints(), V.floats(), V.decimals(),
+                    V.fractions_())
 
 
 def _cmp_objs() -> st.SearchStrategy:
